@@ -72,6 +72,10 @@ class StrSub(str):
     pass
 
 
+class TupSub(tuple):
+    pass
+
+
 class BoolLike:
     def __bool__(self):
         return True
@@ -190,6 +194,9 @@ _v("Flt(ValueError)", lambda: Flt(ValueError), proto=True)
 _v("Flt(TypeError)", lambda: Flt(TypeError), proto=True)
 _v("Cpx(1j)", lambda: Cpx(1j))
 _v("Cpx(ValueError)", lambda: Cpx(ValueError), proto=True)
+_v("TupSub(1,a)", lambda: TupSub((1, "a")))
+_v("TupSub(1,2)", lambda: TupSub((1, 2)))
+_v("TupSub(1.0,2.0)", lambda: TupSub((1.0, 2.0)))
 _v("l[]", lambda: [])
 _v("l[1]", lambda: [1])
 _v("l[1,a]", lambda: [1, "a"])
@@ -581,13 +588,16 @@ def tuple_model(members, lists=False):
             if r == REJECT:
                 return REJECT
             out.append(r[1])
+        if not lists and all(a is b for a, b in zip(out, v)):
+            return ("ok", v)    # nothing converted: the tuple as given
+                                # (possibly of a tuple subclass)
         return ("ok", tuple(out))
     return model
 
 
 def tuple_dom(doms):
     def dom(s):
-        return type(s) is tuple and len(s) == len(doms) and \
+        return isinstance(s, tuple) and len(s) == len(doms) and \
             all(d(x) for d, x in zip(doms, s))
     return dom
 
